@@ -7,7 +7,7 @@ Driver for the `memfsconc` family (property C09).  Two jobs, one line protocol o
      step <tid>                            run the thread to its next park point
      end
    ops:  mkdirall p | write p <hex> | read p | readdir p | exist p | isfile p | isdir p | remove p |
-         removeall p | copy src dst | openw h p | openr h p | hwrite h <hex> | hread h | close h
+         removeall p | copy src dst | copyfile src dst | copydir src dst | openw h p | openr h p | hwrite h <hex> | hread h | close h
    A thread parks at the verifhook yield points and between operations.  `step t` prints
      step <t> park <hook> | done <res> | blocked | finished
    followed by `auto <t2> …` for every thread that was blocked and could continue because of this step,
@@ -59,6 +59,11 @@ def parseOp (ws : List String) : Option Op :=
   | ["remove", p] => some (.remove (parsePath p))
   | ["removeall", p] => some (.removeAll (parsePath p))
   | ["copy", a, b] => some (.copy (parsePath a) (parsePath b))
+  -- CopyFile / CopyDirectory are the two branches of Copy entered without the dispatch on the source's kind:
+  -- the same critical sections (tie_copy_decomposition covers all three).  The model has the one program `copy`;
+  -- the generators use these words only with a source of the matching kind (a fixture node nobody touches)
+  | ["copyfile", a, b] => some (.copy (parsePath a) (parsePath b))
+  | ["copydir", a, b] => some (.copy (parsePath a) (parsePath b))
   | ["openw", h, p] => h.toNat?.map fun k => .openW k (parsePath p)
   | ["openr", h, p] => h.toNat?.map fun k => .openR k (parsePath p)
   | ["hwrite", h, d] => do let k ← h.toNat?; let v ← Hex.decode d; pure (.hwrite k v)
